@@ -236,6 +236,8 @@ class Normaliser(object):
             if len(a) == 2 and isinstance(a[0], ast.Constant) and a[0].value == 0:
                 a = a[1:]
             return Poly.atom("np.arange(%s)" % ", ".join(self.arg(x) for x in a))
+        if isinstance(e, ast.Call) and ast.unparse(e.func) in ("operator.index", "index") and len(e.args) == 1 and not e.keywords:
+            return self.poly(e.args[0])         # operator.index(k) is k for every integer (and raises for anything else)
         if isinstance(e, ast.Call) and isinstance(e.func, ast.Attribute) and e.func.attr == "astype" and len(e.args) == 1 and \
                 ast.unparse(e.args[0]) in ("float", "np.float64", "numpy.float64", "'float'", "'float64'", "np.double", "'f8'"):
             return self.poly(e.func.value)  # a cast to float does not change the value
